@@ -38,6 +38,7 @@ fn plan(prop: &str, tier: Tier) -> Option<Plan> {
         "C07" => (checks::c07::spaces(tier), checks::c07::meta(tier)),
         "C08" => (checks::c08::spaces(tier), checks::c08::meta(tier)),
         "C10" => (checks::c10::spaces(tier), checks::c10::meta(tier)),
+        "C11" => (checks::c11::spaces(tier), checks::c11::meta(tier)),
         "C12" => (checks::c12::spaces(tier), checks::c12::meta(tier)),
         "C13" => (checks::c13::spaces(tier), checks::c13::meta(tier)),
         "C14" => (checks::c14::spaces(tier), checks::c14::meta(tier)),
